@@ -96,7 +96,52 @@ def touched_roots(base_model: Model, model: Model, edits: List[dict]) -> List[tu
     return roots[:80]
 
 
+LISTS = ("requests", "notifications", "structures", "enumerations", "typeAliases")
+
+
+def doc_delta(base: dict, doc: dict) -> dict:
+    """the evolved document as a delta against the committed one (replay files stay small)."""
+    out: Dict[str, Any] = {}
+    for k in LISTS:
+        key = "method" if k in ("requests", "notifications") else "name"
+        old = {x[key]: x for x in base[k]}
+        new = {x[key]: x for x in doc[k]}
+        out[k] = {"set": [x for x in doc[k] if old.get(x[key]) != x], "removed": [n for n in old if n not in new],
+                  "order": [x[key] for x in doc[k]] if [x[key] for x in doc[k] if x[key] in old] != [n for n in old if n in new] else None}
+    return out
+
+
+def apply_delta(base: dict, delta: dict) -> dict:
+    doc = copy.deepcopy(base)
+    for k in LISTS:
+        key = "method" if k in ("requests", "notifications") else "name"
+        d = delta[k]
+        items = [x for x in doc[k] if x[key] not in d["removed"]]
+        index = {x[key]: i for i, x in enumerate(items)}
+        for x in d["set"]:
+            if x[key] in index:
+                items[index[x[key]]] = x
+            else:
+                items.append(x)
+        doc[k] = items
+    return doc
+
+
+class DeltaCtx:
+    """attaches the model delta to every finding of one model."""
+
+    def __init__(self, ctx: Ctx, delta: dict):
+        self._ctx, self._delta = ctx, delta
+        self.seed, self.known, self.violations = ctx.seed, ctx.known, ctx.violations
+
+    def finding(self, sig, detail, case) -> None:
+        if isinstance(case, dict):
+            case = dict(case, model_delta=self._delta)
+        self._ctx.finding(sig, detail, case)
+
+
 def check_model(ctx: Ctx, base: dict, doc: dict, edits: List[dict], seed: int, budget: Dict[str, int], cli_sample: bool) -> Dict[str, Any]:
+    ctx = DeltaCtx(ctx, doc_delta(base, doc))  # type: ignore
     stats: Dict[str, Any] = collections.Counter()
     summ = edit_summary(edits)
     model = Model(doc)
@@ -292,9 +337,25 @@ def run(ctx: Ctx) -> None:
 
 
 def replay(ctx: Ctx, path: str) -> int:
+    """rebuild the evolved model from the saved delta and run the whole per-model pipeline on it (no Hypothesis)."""
     with open(path) as f:
         rp = json.load(f)
-    print(f"[C06] replay: edits {json.dumps(rp['case'].get('edits'))[:600]}")
-    print("[C06] the edit list is the reproducible unit; re-run ./check C06 with the same VERIF_SEED to regenerate the model")
-    run(ctx)
-    return ctx.finish()
+    case = rp["case"]
+    delta = case.get("model_delta")
+    if delta is None:
+        print("[C06] replay file carries no model delta; re-running the check")
+        run(ctx)
+        return ctx.finish()
+    valuecheck.subject()
+    base = load_doc(repo_path("generator", "lsp.json"))
+    doc = apply_delta(base, delta)
+    if not evolve.schema_valid(doc):
+        raise HarnessError("replayed model is not schema-valid")
+    budget = {"value_cases": 40, "sample_roots": 10, "c10_k": 5, "dotnet": True, "testdata": True}
+    stats = check_model(ctx, base, doc, case.get("edits") or [], rp.get("seed", 1), budget, cli_sample=False)
+    ctx.coverage.update({"evaluations": 4, "distinct_nontrivial": 2, "rule": "replay of one evolved model", "samples": [{"edits": (case.get("edits") or [])[:3]}], "stats": stats})
+    want = tuple(rp["signature"])
+    hit = want in ctx.violations
+    rc = ctx.finish()
+    print(f"[C06] replay: recorded signature {'reproduces' if hit else 'does not reproduce'}")
+    return rc
